@@ -47,7 +47,8 @@ LineVerdict(e) ==
     IF e.ev = "Compile" THEN
         (IF e.out.o = "err" /\ e.out.k = "Parse" THEN "skip:compile-error" ELSE "no")
     ELSE
-    LET v == Verdict(e.out, IF Has(e, "want_ast") THEN e.want_ast ELSE e.ast, e.inp, e.binds)
+    LET eng == IF Has(e, "eng") THEN e.eng ELSE <<>>
+        v == VerdictE(e.out, IF Has(e, "want_ast") THEN e.want_ast ELSE e.ast, e.inp, e.binds, eng)
         f1 == IF (Has(e, "inp_same") /\ ~e.inp_same) \/ (Has(e, "inp_after") /\ e.inp_after # e.inp) THEN ";input-modified" ELSE ""
         f2 == IF (Has(e, "binds_same") /\ ~e.binds_same) \/ (Has(e, "binds_after") /\ e.binds_after # e.binds) THEN ";binds-modified" ELSE ""
         f3 == IF (Has(e, "ast_same") /\ ~e.ast_same) \/ (Has(e, "ast_after") /\ e.ast_after # e.ast) THEN ";ast-modified" ELSE ""
@@ -56,7 +57,7 @@ LineVerdict(e) ==
         f5b == IF Has(e, "same3") /\ ~e.same3 /\ ~MayVary(e.ast) THEN ";history-dependent" ELSE ""
         f6 == IF Has(e, "mar") /\ e.mar # "ok" THEN ";not-json" ELSE ""
         f7 == IF Has(e, "eb") /\ e.eb \notin {"ok", "skip"} /\ ~(MayVary(e.ast) /\ e.eb \in {"different-value", "different-error"}) THEN ";evalbytes-differs" ELSE ""
-        f8 == IF v = "no" /\ UndefDiffers(e.out, IF Has(e, "want_ast") THEN e.want_ast ELSE e.ast, e.inp, e.binds) THEN ";undefined-mismatch" ELSE ""
+        f8 == IF v = "no" /\ UndefDiffers(e.out, IF Has(e, "want_ast") THEN e.want_ast ELSE e.ast, e.inp, e.binds, eng) THEN ";undefined-mismatch" ELSE ""
     IN  v \o f1 \o f2 \o f3 \o f4 \o f5 \o f5b \o f6 \o f7 \o f8
 
 Check == /\ verdict = "pending"
